@@ -1,5 +1,158 @@
+/-
+  C19 - The tsh command writes exactly the library's output, or nothing.
+  Theorems about Model/Cli.lean (the model of tsh.go) for every argument list, every file system and
+  every behaviour of the library (`transpile` is a parameter).
+-/
 import TshVerif.Model.Cli
 namespace Tsh.C19
 open Tsh Tsh.Cli
+
+variable (fs : FS) (transpile : Target → Option Bytes)
+
+/-- the loop over the requested outputs: what has been written so far is kept, every further write
+    is `(outPath o t, transpile t)` for a requested target `t`, in request order -/
+theorem runConvs_writes (o : Opts) : ∀ (ts : List Target) (acc : List (String × Bytes)),
+    ∃ ws, (runConvs fs o transpile ts acc).writes = acc ++ ws ∧
+      ∀ w ∈ ws, ∃ t ∈ ts, w.1 = outPath o t ∧ transpile t = some w.2 := by
+  intro ts
+  induction ts with
+  | nil => intro acc; exact ⟨[], by simp [runConvs], by simp⟩
+  | cons t rest ih =>
+    intro acc
+    simp only [runConvs]
+    split
+    · exact ⟨[], by simp, by simp⟩
+    · rename_i script hs
+      split
+      · exact ⟨[], by simp, by simp⟩
+      · split
+        · exact ⟨[], by simp, by simp⟩
+        · obtain ⟨ws, h1, h2⟩ := ih (acc ++ [(outPath o t, script)])
+          refine ⟨(outPath o t, script) :: ws, by simp [h1], ?_⟩
+          intro w hw
+          simp at hw
+          rcases hw with rfl | hw
+          · exact ⟨t, by simp, rfl, hs⟩
+          · obtain ⟨t', ht', h3⟩ := h2 w hw
+            exact ⟨t', by simp [ht'], h3⟩
+
+/-- **Only the library's output is written**: every file `tsh` writes is the output file of a
+    requested target and holds exactly the bytes the library returned for that target. -/
+theorem cli_writes_only_library_output (args : List String) :
+    ∀ w ∈ (run fs args transpile).writes, ∃ o t, parseOptions fs args = some o ∧ t ∈ o.convs ∧
+      w.1 = outPath o t ∧ transpile t = some w.2 := by
+  intro w hw
+  unfold run at hw
+  split at hw
+  · simp at hw
+  · rename_i o ho
+    obtain ⟨ws, h1, h2⟩ := runConvs_writes fs transpile o o.convs []
+    rw [h1] at hw
+    simp at hw
+    obtain ⟨t, ht, h3⟩ := h2 w hw
+    exact ⟨o, t, ho, ht, h3⟩
+
+/-- status 0 means every requested target was transpiled and written -/
+theorem runConvs_ok (o : Opts) : ∀ (ts : List Target) (acc : List (String × Bytes)),
+    (runConvs fs o transpile ts acc).status = 0 →
+      ∀ t ∈ ts, ∃ script, transpile t = some script ∧ (outPath o t, script) ∈ (runConvs fs o transpile ts acc).writes := by
+  intro ts
+  induction ts with
+  | nil => intro acc _ t ht; simp at ht
+  | cons t rest ih =>
+    intro acc hst t' ht'
+    cases hs : transpile t with
+    | none => simp [runConvs, hs] at hst
+    | some script =>
+      by_cases hne : (clean o.inp == outPath o t) = true
+      · simp [runConvs, hs, hne] at hst
+      · by_cases hnd : fs.isDir (outPath o t) = true
+        · simp [runConvs, hs, hne, hnd] at hst
+        · have hrun : runConvs fs o transpile (t :: rest) acc = runConvs fs o transpile rest (acc ++ [(outPath o t, script)]) := by
+            simp [runConvs, hs, hne, hnd]
+          rw [hrun] at hst ⊢
+          simp at ht'
+          rcases ht' with rfl | ht'
+          · refine ⟨script, hs, ?_⟩
+            obtain ⟨ws, h1, _⟩ := runConvs_writes fs transpile o rest (acc ++ [(outPath o t', script)])
+            rw [h1]; simp
+          · exact ih _ hst t' ht'
+
+/-- **A successful run writes every requested output**: exit status 0 implies that for each
+    requested target the output file was written with the library's bytes. -/
+theorem cli_success_writes_all (args : List String) (h : (run fs args transpile).status = 0) :
+    ∃ o, parseOptions fs args = some o ∧
+      ∀ t ∈ o.convs, ∃ script, transpile t = some script ∧ (outPath o t, script) ∈ (run fs args transpile).writes := by
+  cases ho : parseOptions fs args with
+  | none => simp [run, ho] at h
+  | some o =>
+    refine ⟨o, rfl, ?_⟩
+    simp only [run, ho] at h ⊢
+    exact runConvs_ok fs transpile o o.convs [] h
+
+/-- **Errors are reported**: if the library fails for some requested target, the exit status is not 0. -/
+theorem cli_error_nonzero (args : List String) (o : Opts) (ho : parseOptions fs args = some o)
+    (t : Target) (ht : t ∈ o.convs) (hfail : transpile t = none) : (run fs args transpile).status ≠ 0 := by
+  intro h
+  obtain ⟨o', ho', hall⟩ := cli_success_writes_all fs transpile args h
+  rw [ho] at ho'
+  cases ho'
+  obtain ⟨script, hs, _⟩ := hall t ht
+  rw [hfail] at hs
+  cases hs
+
+/-- **Nothing is written for a failing target** -/
+theorem cli_failing_target_not_written (args : List String) (t : Target) (hfail : transpile t = none) :
+    ∀ w ∈ (run fs args transpile).writes, ∀ o, parseOptions fs args = some o → w.1 = outPath o t →
+      ∃ t', t' ≠ t ∧ w.1 = outPath o t' := by
+  intro w hw o ho hp
+  obtain ⟨o', t', ho', _, h1, h2⟩ := cli_writes_only_library_output fs transpile args w hw
+  rw [ho] at ho'; cases ho'
+  refine ⟨t', ?_, h1⟩
+  intro heq; subst heq
+  rw [hfail] at h2; cases h2
+
+/-- **Invalid options write nothing and fail** -/
+theorem cli_bad_options (args : List String) (h : parseOptions fs args = none) :
+    (run fs args transpile).status = 2 ∧ (run fs args transpile).writes = [] := by
+  simp [run, h]
+
+/-- **The input is never overwritten**: no write goes to the (cleaned) input path. -/
+theorem cli_input_untouched (args : List String) :
+    ∀ w ∈ (run fs args transpile).writes, ∀ o, parseOptions fs args = some o → w.1 ≠ clean o.inp := by
+  intro w hw o ho
+  unfold run at hw
+  rw [ho] at hw
+  simp only at hw
+  -- generalise over the accumulator
+  have key : ∀ (ts : List Target) (acc : List (String × Bytes)), (∀ x ∈ acc, x.1 ≠ clean o.inp) →
+      ∀ x ∈ (runConvs fs o transpile ts acc).writes, x.1 ≠ clean o.inp := by
+    intro ts
+    induction ts with
+    | nil => intro acc hacc x hx; simpa [runConvs] using hacc x (by simpa [runConvs] using hx)
+    | cons t rest ih =>
+      intro acc hacc x hx
+      simp only [runConvs] at hx
+      split at hx
+      · exact hacc x hx
+      · split at hx
+        · exact hacc x hx
+        · rename_i hne
+          split at hx
+          · exact hacc x hx
+          · refine ih _ ?_ x hx
+            intro y hy
+            simp at hy
+            rcases hy with hy | rfl
+            · exact hacc y hy
+            · exact fun h => hne (by simp at h; simp [h])
+  exact key o.convs [] (by simp) w hw
+
+/-- non-vacuity (evaluated, a test): a concrete successful invocation with two targets, one of them named twice -/
+def exampleRun : Result :=
+  run { files := [("prog.tsh", [1])], dirs := ["out", "."] }
+    ["-t", "bash", "-o", "out", "-i", "prog.tsh", "-t", "batch", "-t", "bash"] (fun t => some (if t == .bash then [7] else [8]))
+
+#guard exampleRun.status == 0 && exampleRun.writes == [("out/prog.sh", [7]), ("out/prog.bat", [8]), ("out/prog.sh", [7])]
 
 end Tsh.C19
